@@ -20,7 +20,7 @@ DTYPES = ["int8", "uint8", "int16", "uint16", "int32", "uint32", "int64", "uint6
 WRITE_PRIMS = ["from_buffer", "from_native_self", "from_native_other", "from_xbuffer", "from_nplike"]
 READ_PRIMS = ["to_bytearray", "to_native", "copy_to_native", "to_nplike", "to_nparray", "to_pointer_arg"]
 SRC_FORMS = ["bytes", "bytearray", "memoryview", "npdata_u8", "npdata_i8", "npdata_typed"]
-NP_LAYOUTS = ["c1d", "c2d", "f2d", "strided1d", "strided2d", "c3d"]
+NP_LAYOUTS = ["c1d", "c2d", "f2d", "strided1d", "strided2d", "c3d", "be1d", "be2d"]
 
 
 def pbytes(seed, n):
@@ -680,7 +680,7 @@ class BufSim:
                 feat += f":{op['layout']}:{'conv' if sdt != dt else 'same'}"
                 # independent expectation: C-order flattening after conversion
                 with np.errstate(all="ignore"):
-                    conv = np.ascontiguousarray(val).astype(dt) if sdt != dt else np.ascontiguousarray(val)
+                    conv = np.ascontiguousarray(val).astype(dt) if val.dtype != dt else np.ascontiguousarray(val)
                 expected = conv.tobytes()
                 may_refuse = not contiguous
                 with np.errstate(all="ignore"):
@@ -905,6 +905,12 @@ def _mk_nparray(seed, dt, n, layout):
         base = g.integers(0, 100, size=max(n * 2, 1)).astype(dt)
     else:
         base = g.integers(-100, 100, size=max(n * 2, 1)).astype(dt)
+    if layout in ("be1d", "be2d"):
+        # same values, non-native byte order (a big-endian file / network source)
+        a = base[:n].astype(dt.newbyteorder(">"))
+        if layout == "be2d" and n >= 2:
+            a = a.reshape(_mk_shape(n, 2))
+        return a, True
     if layout == "c1d" or n < 2:
         return base[:n].copy(), True
     if layout == "strided1d":
